@@ -16,7 +16,12 @@ fn verif_d9_client_times_out_right_after_late_handshake() {
     let mut server: Option<uflow::server::Server> = None;
     let mut connected_at = None;
     let mut timed_out_at = None;
+    // scheduler stalls (a loaded machine) make this wall-clock scenario meaningless: a gap of more than 400 ms between two
+    // iterations can by itself produce a legitimate timeout or a missed handshake, so such a run is inconclusive, not a failure
+    let mut last_iter = Instant::now();
+    let mut max_gap = Duration::from_millis(0);
     while t0.elapsed() < Duration::from_millis(3200) {
+        let gap = last_iter.elapsed(); if gap > max_gap { max_gap = gap; } last_iter = Instant::now();
         if server.is_none() && t0.elapsed() > Duration::from_millis(1000) {
             let mut scfg: uflow::server::Config = Default::default();
             scfg.endpoint_config.keepalive = true;
@@ -34,7 +39,8 @@ fn verif_d9_client_times_out_right_after_late_handshake() {
         client.flush();
         std::thread::sleep(Duration::from_millis(10));
     }
-    println!("connected_at={:?} timed_out_at={:?}", connected_at, timed_out_at);
+    println!("connected_at={:?} timed_out_at={:?} max_gap={:?}", connected_at, timed_out_at, max_gap);
+    if max_gap > Duration::from_millis(400) { println!("inconclusive: the test thread was stalled for {:?}", max_gap); return; }
     assert!(connected_at.is_some(), "handshake did not complete");
     if let (Some(c), Some(t)) = (connected_at, timed_out_at) {
         panic!("client reported Timeout {:?} after Connect although frames were just received (deadline not offset by now_ms)", t - c);
